@@ -48,6 +48,32 @@ def run_config(chk, config):
                     shape_ok = False
             for p, ks in cur.items():
                 ctor.setdefault(p, set()).update(ks)
+        if not (shape_ok and all(len(ks) == 1 for ks in ctor.values()) and set(ctor) == set(pnames)):
+            # a constructor that branches on its arguments (`flag.then_some(MASK).unwrap_or_default()`): every path has a
+            # constant word; bit k must be set on exactly the paths on which one particular argument is true
+            rows = []
+            for st, v in rets:
+                data = v.variants[0][0] if isinstance(v, VAdt) and v.variants.get(0) else None
+                if not (isinstance(data, VInt) and data.lin.is_const()):
+                    rows = None
+                    break
+                asg = {p_: st.bitfacts.get((p_, 0)) for p_ in pnames}
+                rows.append((asg, data.lin.c))
+            if rows and all(all(x is not None for x in asg.values()) for asg, _w in rows) and len(rows) == 2 ** len(pnames):
+                alt = {}
+                ok_alt = True
+                for k in range(32):
+                    col = [(asg, (w_ >> k) & 1) for asg, w_ in rows]
+                    if all(b_ == 0 for _a, b_ in col):
+                        continue
+                    owners = [p_ for p_ in pnames if all(b_ == (1 if asg[p_] else 0) for asg, b_ in col)]
+                    if len(owners) == 1:
+                        alt.setdefault(owners[0], set()).add(k)
+                    else:
+                        ok_alt = False
+                if ok_alt:
+                    ctor = alt
+                    shape_ok = True
         chk.oblig(shape_ok and all(len(ks) == 1 for ks in ctor.values()) and set(ctor) == set(pnames),
                   "ctor-shape | %s::new" % kind,
                   "%s::new does not build a word with exactly one bit per argument and zeros elsewhere (%s)" % (kind, {p: sorted(k) for p, k in ctor.items()}),
@@ -85,6 +111,40 @@ def run_config(chk, config):
                     if all(v_.f[1] == s_.bitfacts.get(("D", k)) for s_, v_ in r2):
                         got = k
                         single = True
+            if not single and len(r2) == 1 and isinstance(r2[0][1], VBool):
+                # any other way of testing one bit (`data & MASK != 0`, `matches!((data >> k) & 1, 1)`): the bit whose value
+                # decides the result both ways
+                s_, v_ = r2[0]
+                hits = []
+                for k in range(32):
+                    a1 = e2.assume(s_.fork(), ("bit", "D", k), True)
+                    a0 = e2.assume(s_.fork(), ("bit", "D", k), False)
+                    if a1 and a0 and all(e2.bool_value(x, v_.f) is True for x in a1) and all(e2.bool_value(x, v_.f) is False for x in a0):
+                        hits.append(k)
+                if len(hits) == 1:
+                    got = hits[0]
+                    single = True
+            if not single and len(r2) >= 2 and all(isinstance(v_, VBool) and v_.f[0] == "const" for _s, v_ in r2):
+                # branches on a number carved out of the word (`matches!((data >> k) & 1, 1)`): the bit whose value selects
+                # exactly the paths that return true
+                hits = []
+                for k in range(32):
+                    ok_k = True
+                    seen_t = seen_f = False
+                    for s_, v_ in r2:
+                        f1 = bool(e2.assume(s_.fork(), ("bit", "D", k), True))
+                        f0 = bool(e2.assume(s_.fork(), ("bit", "D", k), False))
+                        want_t = v_.f[1] is True
+                        if (f1 and not want_t) or (f0 and want_t):
+                            ok_k = False
+                            break
+                        seen_t |= f1 and want_t
+                        seen_f |= f0 and not want_t
+                    if ok_k and seen_t and seen_f:
+                        hits.append(k)
+                if len(hits) == 1:
+                    got = hits[0]
+                    single = True
             want_ctor = sorted(ctor.get(p, []))
             chk.oblig(single and want_ctor == [got], "accessor | %s::is_%s" % (kind, p),
                       "%s::new puts `%s` in bit %s but is_%s reads bit %s" % (kind, p, want_ctor, p, got),
